@@ -111,7 +111,7 @@ PROPS = {
     ),
     "C06": dict(
         level="exploration",
-        specs=["specs.c06_bursts"],
+        specs=["specs.c06_bursts", "specs.c18_context"],      # (c18_context: the step of discover_connections, tagged C06 - the controller's tries / timeout / port reach every connection)
         bounded=["bounded.c06_bursts"],
     ),
     "C01": dict(
